@@ -1,2 +1,12 @@
 import SpoxModel.Props.C14
 /-! `#print axioms` for every property theorem of C14; parsed by ./check. -/
+#print axioms C14.defined_once
+#print axioms C14.definition_is_own_body
+#print axioms C14.inconsistent_rejected
+#print axioms C14.consistent_accepted
+#print axioms C14.imports_cover_body
+#print axioms C14.imports_cover_model
+#print axioms C14.imports_attained
+#print axioms C14.imports_agree_with_model
+#print axioms C14.function_sem
+#print axioms C14.function_sem_rejects
